@@ -9,11 +9,17 @@
                      of get_aligned_pairs(matches_only=True) in alignment order (pysam = trusted, outside the model)
      frag          = Fragment.reads : a python list of Optional[read]   (R1 = reads[0], R2 = reads[1])
      Res           = python outcome: a value, ValueError (caught by Molecule.get_consensus) or IndexError (not caught)
-     default keyword arguments only (only_include_refbase, min_phred_score, skip_*_cycles = None, dove distances 0,
-     allow_N = False). *)
+     opts          = the keyword arguments that reach get_consensus_dictionaries (dove_safe, only_include_refbase,
+                     min_phred_score, skip_first/last_n_cycles_R1/R2, dove_R1/R2_distance); allow_N and
+                     with_probs_and_obs are in Model/C13x.v (record args).
+   This is the hand-written model the theorems are proved about.  Model/C13x.v builds the same pipeline from the
+   expressions REGENERATED from the source (Gen/GenConsensus.v) and Proofs/C13x.v proves the two equal.  The one thing
+   taken from the generated file here is the routing of the skip_*_n_cycles options to the mates (flt1 / flt2): the
+   statement says nothing about it, /repo routes skip_last_n_cycles_R2 to both skip arguments of R2, and a correction of
+   that must not invalidate anything. *)
 From Coq Require Import ZArith List Bool.
 Import ListNotations.
-From SCMO Require Import Lib.Val.
+From SCMO Require Import Lib.Val Gen.GenConsensus.
 Open Scope Z_scope.
 
 (* ------------------------------------------------------------------ bases *)
@@ -90,11 +96,18 @@ Definition dflt (d : bool) : opts :=
      o_d1 := 0; o_d2 := 0 |}.
 (* what read_to_consensus_dict receives for one mate *)
 Record rfilter := { f_refbase : option Z; f_minq : option Z; f_sf : option Z; f_sl : option Z }.
+(* which of the four skip options read_to_consensus_dict receives as skip_first / skip_last for R1 and for R2 is
+   regenerated from the two calls in get_consensus_dictionaries (g_r1_skip_first ... g_r2_skip_last each return one of
+   their four arguments).  /repo HEAD: R1 gets (skip_first_n_cycles_R1, skip_last_n_cycles_R1), R2 gets
+   (skip_last_n_cycles_R2, skip_last_n_cycles_R2) - skip_first_n_cycles_R2 is unused (sic, fixes/C13-D36.patch) *)
 Definition flt1 (o : opts) : rfilter :=
-  {| f_refbase := o_refbase o; f_minq := o_minq o; f_sf := o_sf1 o; f_sl := o_sl1 o |}.
-(* get_consensus_dictionaries passes skip_first_n_cycles=skip_last_n_cycles_R2 for R2 (sic): skip_first_n_cycles_R2 is unused *)
+  {| f_refbase := o_refbase o; f_minq := o_minq o;
+     f_sf := g_r1_skip_first (o_sf1 o) (o_sl1 o) (o_sf2 o) (o_sl2 o);
+     f_sl := g_r1_skip_last (o_sf1 o) (o_sl1 o) (o_sf2 o) (o_sl2 o) |}.
 Definition flt2 (o : opts) : rfilter :=
-  {| f_refbase := o_refbase o; f_minq := o_minq o; f_sf := o_sl2 o; f_sl := o_sl2 o |}.
+  {| f_refbase := o_refbase o; f_minq := o_minq o;
+     f_sf := g_r2_skip_first (o_sf1 o) (o_sl1 o) (o_sf2 o) (o_sl2 o);
+     f_sl := g_r2_skip_last (o_sf1 o) (o_sl1 o) (o_sf2 o) (o_sl2 o) |}.
 Definition frag := list (option read).                   (* Fragment.reads *)
 
 Inductive Res (A : Type) : Type := Ok (a : A) | ValueError | IndexError.
